@@ -331,7 +331,9 @@ def main() -> None:
         'checks': checks,
         'not_applicable': na,
         'notes': 'Exit codes: 0 held, 1 VIOLATION, 2 machinery failure. VERIF_REPO selects the tree under test (default /repo). '
-                 'known_findings.json lists recorded genuine defects.',
+                 'known_findings.json lists recorded genuine defects. Round-4 follow-ups (DESIGN.md 10.17): the quick tier of every check '
+                 'was re-run on the final tree with VERIF_SEED=1 (committed evidence); the complete mutant sweeps and the thorough tiers '
+                 'of C01 C03 C04 C06 C08 C10 C11 C13 C15 C17 C18 C19 were not re-run after the last extensions (overloaded box).',
     }
     (VERIF / 'MANIFEST.json').write_text(json.dumps(manifest, indent=1) + '\n')
     try:
